@@ -405,15 +405,30 @@ func ruleEpcUpkeep(c *Ctx) {
 			return true
 		}
 		ifs := be
+		// the tested epoch, through its single-definition locals, in normal form: <next epoch> or <current epoch> + 1
 		src := types.ExprString(rem.X)
-		if id, ok := ast.Unparen(rem.X).(*ast.Ident); ok {
-			defs := singleDefs(info, fd.Body)
-			if d, ok := defs[info.Uses[id]]; ok {
-				src = types.ExprString(d.rhs)
+		isNext := false
+		if sp, ok := exprPoly(info, rem.X, singleDefs(info, fd.Body), nil, 0); ok {
+			src = sp.String()
+			n := 0
+			for a, cf := range sp {
+				if a == "" {
+					continue
+				}
+				n++
+				switch {
+				case cf == 1 && strings.HasSuffix(a, "NextEpoch.Epoch") && sp[""] == 0:
+					isNext = true
+				case cf == 1 && strings.HasSuffix(a, "CurrentEpoch.Epoch") && sp[""] == 1:
+					isNext = true
+				}
+			}
+			if n != 1 {
+				isNext = false
 			}
 		}
 		key := "ProcessSyncCommitteeUpdates.period-test"
-		if strings.Contains(src, "NextEpoch.Epoch") || strings.Contains(src, "+ 1") {
+		if isNext {
 			okNext = true
 			c.ok(key, ifs.Pos(), "period boundary tested on the next epoch (%s)", src)
 		} else {
